@@ -403,8 +403,8 @@ struct Printer {
       int ch = (unsigned char)v[i];
       if (f.is_esc(ch) || ch == '\n' || (f.oend && ch == f.oend)) return true;
       // without an option-end character a comment starts at a comment character behind white space
-      // (also directly behind the assign character when white space precedes the value)
-      if (!f.oend && f.is_com(ch)) return true;
+      // (for the first character: behind the white space that may precede the value)
+      if (!f.oend && f.is_com(ch) && (i == 0 || isspace((unsigned char)v[i - 1]))) return true;
     }
     return false;
   }
@@ -547,7 +547,7 @@ inline bool node_value(const mpt::node *n, std::string &out) {
 inline void read_list(const mpt::node *first, std::vector<Node> &out, std::vector<const mpt::node *> *addr = 0, int depth = 0) {
   using namespace mpt;
   size_t guard = 0;
-  for (const mpt::node *n = first; n && guard < 100000 && depth < 64; n = n->next, ++guard) {
+  for (const mpt::node *n = first; n && guard < 1000000 && depth < 60000; n = n->next, ++guard) {
     Node m;
     if (n->ident._len > 0) {
       const char *id = (const char *)mpt_identifier_data(&n->ident);
@@ -563,16 +563,20 @@ inline void read_list(const mpt::node *first, std::vector<Node> &out, std::vecto
 }
 
 // structural walker: every child list is a proper doubly linked list whose members name their parent
-inline std::string walk(const mpt::node *parent, int depth = 0) {
+// (data-only elements nest below each other, so a flat input can give a very deep tree: the bounds only
+// stop a walk through cyclic links; inputs here stay far below them)
+inline std::string walk(const mpt::node *parent, int depth = 0, size_t *budget = 0) {
   char b[160];
-  if (depth > 64) return "deeper than 64 levels";
+  size_t total = 0;
+  if (!budget) budget = &total;
+  if (depth > 60000) return "deeper than 60000 levels (cycle)";
   const mpt::node *prev = 0;
   size_t i = 0;
   for (const mpt::node *n = parent->children; n; prev = n, n = n->next, ++i) {
-    if (i > 100000) return "child list longer than 100000 (cycle)";
+    if (++*budget > 2000000) return "more than 2000000 nodes reachable (cycle)";
     if (n->prev != prev) { snprintf(b, sizeof b, "depth %d child %zu: prev link does not name the predecessor", depth, i); return b; }
     if (n->parent != parent) { snprintf(b, sizeof b, "depth %d child %zu: parent link %s", depth, i, n->parent ? "names another node" : "is NULL"); return b; }
-    std::string s = walk(n, depth + 1);
+    std::string s = walk(n, depth + 1, budget);
     if (!s.empty()) return s;
   }
   return "";
